@@ -549,47 +549,45 @@ assign_int_float(To& to, const From from, Rounding_Dir dir) {
   else if (is_pinf<From_Policy>(from)) {
     return assign_special<To_Policy>(to, VC_PLUS_INFINITY, dir);
   }
-#if 0
-  // FIXME: this is correct but it is inefficient and breaks the build
-  // for the missing definition of static const members (a problem present
-  // also in other areas of the PPL).
-  if (CHECK_P(To_Policy::check_overflow,
-              lt(from, Extended_Int<To_Policy, To>::min))) {
+  // Note: the bounds of `To' cannot, in general, be converted to `From'
+  // exactly: the comparisons are performed on the integer side.
+  // The following are 2^k, where k is the number of value bits of `To',
+  // and the minimum of `To' (0 or -2^k): both conversions are exact.
+  const From two_to_k = static_cast<From>(C_Integer<To>::max / 2 + 1) * 2;
+  const From c_min = static_cast<From>(C_Integer<To>::min);
+  bool neg_overflow = (from < c_min);
+  bool pos_overflow = (from >= two_to_k);
+  // The truncation of `from' (towards zero).
+  To t = 0;
+  bool inexact = false;
+  if (!neg_overflow && !pos_overflow) {
+    // Here the truncation of `from' is representable by `To'.
+    t = static_cast<To>(from);
+    // Note: if `from' is not an integer, `t' can be converted exactly.
+    inexact = (static_cast<From>(t) != from);
+    neg_overflow = (t < Extended_Int<To_Policy, To>::min)
+      || (t == Extended_Int<To_Policy, To>::min && inexact && from < 0);
+    pos_overflow = (t > Extended_Int<To_Policy, To>::max)
+      || (t == Extended_Int<To_Policy, To>::max && inexact && from > 0);
+  }
+  if (CHECK_P(To_Policy::check_overflow, neg_overflow)) {
     return set_neg_overflow_int<To_Policy>(to, dir);
   }
-  if (CHECK_P(To_Policy::check_overflow,
-              !le(from, Extended_Int<To_Policy, To>::max))) {
+  if (CHECK_P(To_Policy::check_overflow, pos_overflow)) {
     return set_pos_overflow_int<To_Policy>(to, dir);
   }
-#else
-  if (CHECK_P(To_Policy::check_overflow,
-             (from < Extended_Int<To_Policy, To>::min))) {
-    return set_neg_overflow_int<To_Policy>(to, dir);
-  }
-  if (CHECK_P(To_Policy::check_overflow,
-             (from > Extended_Int<To_Policy, To>::max))) {
-    return set_pos_overflow_int<To_Policy>(to, dir);
-  }
-#endif
+  to = t;
   if (round_not_requested(dir)) {
-    to = from;
     return V_LGE;
   }
-  From i_from = rint(from);
-  to = i_from;
-  if (from == i_from) {
+  if (!inexact) {
     return V_EQ;
   }
-  if (round_direct(ROUND_UP)) {
+  if (from < 0) {
+    // Here `from < t'.
     return round_lt_int<To_Policy>(to, dir);
   }
-  if (round_direct(ROUND_DOWN)) {
-    return round_gt_int<To_Policy>(to, dir);
-  }
-  if (from < i_from) {
-    return round_lt_int<To_Policy>(to, dir);
-  }
-  PPL_ASSERT(from > i_from);
+  // Here `from > t'.
   return round_gt_int<To_Policy>(to, dir);
 }
 
